@@ -1,12 +1,13 @@
 #!/bin/bash
 # run_seed.sh <seed-dir> <check ids...> : applies the seeded change to a scratch worktree of /repo HEAD and runs the given checks
-# against it (VERIF_REPO/VERIF_OUT), then removes the worktree.  Output: one summary line per check.
+# (of THIS copy of /verif) against it (VERIF_REPO/VERIF_OUT), then removes the worktree.  Output: one summary line per check.
+HERE="$(cd "$(dirname "$0")/.." && pwd)"
 D="$1"; shift; N=$(basename "$D"); W=/tmp/seedrun.$N.$$; O=/tmp/seedout.$N.$$
 git -C /repo worktree add -q --detach "$W" HEAD || exit 9
 ( cd "$W" && git apply "$D/patch.diff" ) || { echo "$N APPLY-FAIL"; git -C /repo worktree remove --force "$W"; exit 1; }
 mkdir -p "$O"
 for c in "$@"; do
-  VERIF_REPO="$W" VERIF_OUT="$O" /verif/check $c > "$O/$c.out" 2>&1; rc=$?
-  echo "$N $c exit=$rc $(grep -c '^VIOLATION' $O/$c.out) violations; $(grep -v '^KNOWN' $O/$c.out | grep '^VIOLATION' | head -2 | cut -c1-220 | tr '\n' ' ')"
+  VERIF_REPO="$W" VERIF_OUT="$O" "$HERE/check" $c > "$O/$c.out" 2>&1; rc=$?
+  echo "$N $c exit=$rc $(grep -c '^VIOLATION' $O/$c.out) violations; $(grep '^VIOLATION' $O/$c.out | head -2 | sed 's/replay=[^ ]*//' | cut -c1-200 | tr '\n' ' ')"
 done
-git -C /repo worktree remove --force "$W"; rm -rf "$O/.cache"
+git -C /repo worktree remove --force "$W"; rm -rf "$O"
